@@ -138,7 +138,16 @@ impl Manifest {
         let mut begin = false;
 
         for value in stream {
-            let value = value?;
+            let value = match value {
+                Ok(value) => value,
+                // A crash in the middle of an append leaves a truncated record at the tail:
+                // the transaction it belongs to was never acknowledged, ignore it.
+                Err(e) if e.is_eof() => {
+                    warn!("manifest: find truncated entry at the end");
+                    break;
+                }
+                Err(e) => return Err(e.into()),
+            };
             match value {
                 ManifestOperation::Begin => begin = true,
                 ManifestOperation::End => {
